@@ -118,6 +118,52 @@ static std::string rep_one(const std::string& pos, int sb, P32 rep)
   return "badop";
 }
 
+// ---- a backend whose pointer REPRESENTATION is itself a pointer type (T_PointerType = void*): every 64-bit pattern the guest
+//      hands over must still go through the backend's translation -----------------------------------------------------------
+static rlbox::rlbox_sandbox<SbxN> g_sbN;
+static uint64_t gl_id64(uint64_t x) { return x; }
+static uint64_t gl_callcb64(uint64_t cb, uint64_t arg) { return SbxN::thread_data.sandbox->guest_call_fnptr<void*, void*>(reinterpret_cast<void*>(cb), reinterpret_cast<void*>(arg)) ? 1 : 0; }
+static const void* g_cbN_seen;
+static tainted<int*, SbxN> app_cb_ptrN(rlbox::rlbox_sandbox<SbxN>&, tainted<int*, SbxN> p)
+{
+  g_cbN_seen = p.UNSAFE_unverified();
+  tainted<int*, SbxN> r = nullptr;
+  return r;
+}
+static std::string nrep(const std::string& pos, uint64_t rep)
+{
+  auto baseN = g_sbN.get_sandbox_impl()->Base;
+  auto show = [&](const void* p) -> std::string {
+    if (!p) return "null";
+    auto v = reinterpret_cast<uintptr_t>(p);
+    if (v >= baseN && v - baseN < BLK) return "inN:" + std::to_string(v - baseN);
+    char b[40]; snprintf(b, sizeof b, "out:0x%llx", (unsigned long long)v); return b;
+  };
+  if (pos == "result") {
+    auto r = g_sbN.INTERNAL_invoke_with_func_ptr<int*(unsigned long)>("gl_id64", reinterpret_cast<void*>(&gl_id64), (unsigned long)rep);
+    return "ok " + show(r.UNSAFE_unverified());
+  }
+  if (pos == "cbarg") {
+    auto cb = g_sbN.register_callback(app_cb_ptrN);
+    g_cbN_seen = nullptr;
+    using F = int* (*)(int*);
+    g_sbN.INTERNAL_invoke_with_func_ptr<unsigned long(F, unsigned long)>("gl_callcb64", reinterpret_cast<void*>(&gl_callcb64), cb, (unsigned long)rep);
+    return "ok " + show(g_cbN_seen);
+  }
+  std::memcpy(reinterpret_cast<void*>(baseN), g_pattern, BLK);
+  std::memcpy(reinterpret_cast<void*>(baseN + CELL + 16), &rep, 8);
+  tainted<int**, SbxN> pp = nullptr;
+  pp.assign_raw_pointer(g_sbN, reinterpret_cast<int**>(baseN + CELL));
+  if (pos == "cell") { tainted<int*, SbxN> p = pp[2]; return "ok " + show(p.UNSAFE_unverified()); }
+  if (pos == "arrel") {
+    auto pa = rlbox::sandbox_reinterpret_cast<int* (*)[4]>(pp);
+    tainted<int*, SbxN> p = (*pa)[2];
+    tainted<int* [4], SbxN> whole = *pa;
+    return "ok " + show(p.UNSAFE_unverified()) + "," + show(whole[2].UNSAFE_unverified());
+  }
+  return "badop";
+}
+
 // ---- pointer stores in every position: what does the guest see? ------------------------------
 static std::string pstore(const std::string& pos, int sb, const std::string& target)
 {
@@ -330,6 +376,11 @@ static bool chain_step(Var& v, const std::string& s, int sb)
   auto num = [&](size_t from) { return (long long)parse_dec(s.substr(from)); };
   if (s[0] == '+') { long long n = num(1); std::visit([&](auto& p) { p = p + n; }, v); return true; }
   if (s[0] == '-') { long long n = num(1); std::visit([&](auto& p) { p = p - n; }, v); return true; }
+  // increments / decrements in all four spellings; the chain continues with the (updated) pointer variable
+  if (s == "pi") { std::visit([&](auto& p) { ++p; }, v); return true; }
+  if (s == "pd") { std::visit([&](auto& p) { --p; }, v); return true; }
+  if (s == "ip") { std::visit([&](auto& p) { p++; }, v); return true; }
+  if (s == "dp") { std::visit([&](auto& p) { p--; }, v); return true; }
   if (s[0] == '[') {
     long long n = num(1);
     if (auto* p = std::get_if<VI>(&v)) { *p = &(*p)[n]; return true; }
@@ -429,6 +480,7 @@ int main()
   g_sb[0].create_sandbox(&g_libA);
   g_sb[1].create_sandbox(&g_libB);
   g_sbB.create_sandbox();
+  g_sbN.create_sandbox();
   main_loop([&](const std::vector<std::string>& t) -> std::string {
     reset_image();
     return guarded([&]() -> std::string {
@@ -468,6 +520,7 @@ int main()
         else return "badop";
         return "ok " + addr(r);
       }
+      if (op == "nrep" && t.size() == 3) return nrep(t[1], (uint64_t)parse_dec(t[2]));
       if (op == "pstoreb" && t.size() == 3) return pstoreb(t[1], t[2]);
       if (op == "pfoot" && t.size() == 4) {   // footprint of a pointer store: the bytes around the cell afterwards
         int sb = atoi(t[2].c_str());
